@@ -160,7 +160,15 @@ def run(ctx):
                evaluations=len(progs) * 2 + stats["table_checked"], distinct_nontrivial=len(seen) + ncases, classes=dict(stats),
                rule="operator table: every binary/unary operator x every ordered pair of 27 boundary operands (TLC-enumerated, distinct by construction); corpus: families + seeded random programs, each engine compared with NanoSem's prescription",
                states=r_ops.distinct + r1.distinct, transitions=r_ops.generated + r1.generated)
-    return "translation_validation", cov, [
+    # instruction level (NanoVMVal.tla through hook H7): every instruction the VM executes on the corpus is judged
+    import props.c02v as c02v
+    _, cov_v, ass_v = c02v.run(ctx)
+    cov["instruction_level"] = {k: cov_v[k] for k in ("laws", "rule", "traces_validated_against_impl", "evaluations", "distinct_nontrivial")}
+    cov["instruction_level"]["stats"] = cov_v["vmval"].get("stats")
+    cov["instruction_level"]["unspecified_opcodes_seen"] = cov_v["vmval"].get("unspecified_seen", cov_v["vmval"].get("unspecified"))
+    cov["traces_validated_against_impl"] = cov_v["traces_validated_against_impl"]
+    cov["states"] += cov_v["states"]; cov["transitions"] += cov_v["transitions"]
+    return "translation_validation", cov, ass_v + [
         "NanoSem.tla / Int64.tla are the reference (transcribed from SPECIFICATION 4-8; formal/Semantics.v for Mode coq: floor division)",
         "the Coq comparison covers / % and comparisons on the operator table; Coq's unbounded Z is compared only where no 64-bit wrap occurs",
         "x / 0 is excluded (undefined in the Coq model, engines differ by design)"]
@@ -168,5 +176,8 @@ def run(ctx):
 
 def replay(ctx, path):
     rep = json.load(open(path))
+    if "step" in rep or "instruction" in rep:          # an instruction-level artifact
+        import props.c02v as c02v
+        return c02v.replay(ctx, path)
     print(json.dumps({k: v for k, v in rep.items() if k != "source"}, indent=1))
     return 0
